@@ -53,6 +53,19 @@ def pv(x, tol: float = 1e-12) -> list[int]:
     return [fr.numerator, fr.denominator]
 
 
+UNREPRESENTABLE = [0, -2]
+
+
+def pv_out(x, tol: float = 1e-9) -> list[int]:
+    """projection of a value RETURNED by flox: a result outside the abstract domain (not a small rational,
+    beyond 32 bits) cannot be the reference answer of an in-domain input; it is projected to the marker
+    'unrepresentable', which matches no specified expected value."""
+    try:
+        return pv(x, tol)
+    except ProjectionError:
+        return list(UNREPRESENTABLE)
+
+
 def pseq(arr, tol: float = 1e-12) -> list[list[int]]:
     a = np.asarray(arr)
     return [pv(v, tol) for v in a.reshape(-1)]
